@@ -4,6 +4,7 @@ import (
 	"context"
 	"errors"
 	"fmt"
+	"math"
 	"net"
 	"sync"
 	"time"
@@ -177,7 +178,10 @@ func (t *transport) Run() error {
 		return fmt.Errorf("could not create listener: %w", err)
 	}
 
-	t.server = grpc.NewServer()
+	// A request carries at least one log entry however large that entry is, so the size
+	// of a message is bounded by the operations that clients submit and not by the
+	// default limit of the server, which would reject such a request forever.
+	t.server = grpc.NewServer(grpc.MaxRecvMsgSize(math.MaxInt32))
 	pb.RegisterRaftServer(t.server, t)
 	go t.server.Serve(listener)
 	t.ctx, t.cancel = context.WithCancel(context.Background())
